@@ -42,7 +42,8 @@ def view_cases(rng):
 
     # the exception that is not selected: ordinary classes, among them the lookup errors that stages of the
     # library catch for their own purposes (never IndexError: BatchDataset documents that one as its end mark)
-    other_cls = rng.choice([ValueError, ValueError, KeyError, LookupError, RuntimeError, ZeroDivisionError, TypeError, AttributeError])
+    other_cls = rng.choice([ValueError, ValueError, KeyError, LookupError, RuntimeError, ZeroDivisionError, TypeError, AttributeError,
+                            NotImplementedError, NotImplementedError, OSError])
     # optionally a batch stage between the failing map and the prefetch (the pool path builds batches by index)
     bs = rng.choice([None, None, 1, 2, 3])
     # optionally the failing map sits in the parts of a concatenation (the pool path walks the parts by index); without
@@ -114,6 +115,28 @@ def view_cases(rng):
         csel = caught if len(caught) > 1 else caught[0]
         views['catch_items'] = lambda: (kv[1] for kv in lazy_dataset.new(src).map(f).catch(csel).items())
         views['catch_prefetch_items'] = lambda: (kv[1] for kv in lazy_dataset.new(src).map(f).catch(csel).prefetch(1, b).items())
+    if keyed and not bs and split_at is None:
+        # the keyed view of the parallel map (no catching stage): the pairs before the first failing example, then ITS
+        # exception, whatever its class
+        pv, pe = [], None
+        for x in range(n):
+            if x == other:
+                pe = other_cls.__name__
+                break
+            if x in bad:
+                pe = 'FilterException' if kinds[x] in ('filter', 'sub') else 'Selected'
+                break
+            pv.append(None if x in nones else x * 10)
+        with warnings.catch_warnings():
+            warnings.simplefilter('ignore')
+            for nm, mkp in (('map(f, num_workers).items()', lambda: (kv[1] for kv in lazy_dataset.new(src).map(f, num_workers=w, buffer_size=b).items())),
+                            ('map(f).items().prefetch(1, b)', lambda: (kv[1] for kv in lazy_dataset.new(src).map(f).items().prefetch(1, b))),
+                            ('map(f).prefetch(1, b).items()', lambda: (kv[1] for kv in lazy_dataset.new(src).map(f).prefetch(1, b).items()))):
+                got = stream(mkp)
+                if got != {'vals': pv, 'err': pe}:
+                    fails.append(('catch_filter_exception_view', {'view': nm, 'n': n, 'raising_selected': sorted(bad), 'raising_other': other, 'workers': w, 'buffer': b,
+                                                                   'other_class': other_cls.__name__, 'got': got, 'serial_reference': {'vals': pv, 'err': pe}}))
+                    break
     with warnings.catch_warnings():
         warnings.simplefilter('ignore')
         for name, mkv in views.items():
@@ -129,7 +152,7 @@ def view_cases(rng):
 def run(rep):
     concrun.run(rep, 'C06', WHICH)
     rng = random.Random(rep.seed * 61 + 6)
-    n = 60 if rep.tier == 'quick' else 1500
+    n = 250 if rep.tier == 'quick' else 4000
     fails = []
     for _ in range(n):
         fails += view_cases(rng)
